@@ -164,6 +164,8 @@ def run(chk):
         want = X.sqrt(zr) if sr > 0 else (X.I * X.sqrt(-zr) if sr < 0 else X.const(0))
         chk.ob('R20.5', f'_sqrt_neg_python(x, is_real=True) == principal root ({lab})', dq.equal(val, want), dq.describe(val, want), mp.where(fpy), key=f'R20.5|is_real|{sr}', method='GF(p^2) PIT on a sign region')
     # compiled main branch: t = sqrt((|z| + z_r)/2), result = (t, z_i/(2t)) for z_r >= 0 : same principal root
+    finite_paths(chk, repo)
+    chk.floor('R20.7', 2)
     chk.floor('R20.1', 50); chk.floor('R20.4', 10); chk.floor('R20.5', 21)
 
     from . import c20_annexg
@@ -221,3 +223,93 @@ def conj_rule(chk, mod, f):
                    mod.where(st), key=f'R20.3|{f.name}|return {txt}', method='def-use taint of the imaginary component')
     if n == 0:
         raise AnalysisError(f'{f.name}: no return statements found')
+
+
+# ------------------------------------------------------------------------------------------------ R20.7 finite arguments: path-wise algebraic identities
+def finite_paths(chk, repo):
+    """For finite arguments the helpers are straight-line formulas selected by comparisons.  Every path through the data-dependent branches of cf_hypot and
+    cf_csqrt is enumerated; on each arm of non-empty interior the returned expression must satisfy the defining identity (hypot^2 == x^2 + y^2;
+    csqrt(z)^2 == z) as an algebraic identity in the real numbers (rounding is not modelled), at sample points drawn inside the arm.  isinf / isnan / signbit
+    tests are taken as false (finite arguments; the special values are R20.2's business)."""
+    from ..core.interp import PathExplorer
+    mc = repo.by_path('TidalPy/utilities/math/complex.pyx')
+
+    def branch(itp, st, v, fr):
+        return False if isinstance(v, Opaque) else None
+
+    def glob(itp, mod, nm):
+        if nm in ('THRESH', 'DBL_MAX_4', 'DBL_MAX', 'DBL_MIN'):
+            return X.atom(nm, 'pos')
+        return None
+    x = X.atom('x'); y = X.atom('y')
+
+    def explore(f, args):
+        it = Interp(repo, hooks={'branch': branch, 'global': glob})
+
+        def one(fork):
+            it.hooks['fork'] = fork
+            try:
+                return it.call(mc, f, args)
+            finally:
+                it.hooks.pop('fork', None)
+        return PathExplorer(max_paths=256).run(one)
+
+    def region(trace):
+        """positivity constraints of the arm, or None for an arm of measure zero / a contradictory arm"""
+        pos = []
+        for (cv, _w, _t, out) in trace:
+            kind, pins = PathExplorer.arm(cv, out)
+            if kind == 'equality':
+                return None
+            if isinstance(cv, X.Node) and cv.op == 'cmp':
+                a, b = cv.args
+                if cv.val in ('>', '>='): pos.append((a - b) if out else (b - a))
+                elif cv.val in ('<', '<='): pos.append((b - a) if out else (a - b))
+                elif cv.val in ('==', '!='):
+                    if (cv.val == '==') == bool(out): return None
+        return pos
+
+    def sqrt_args(node):
+        out = []; seen = set(); stack = [node]
+        while stack:
+            n = stack.pop()
+            if n.uid in seen: continue
+            seen.add(n.uid)
+            if n.op == 'fn' and n.val == 'sqrt': out.append(n.args[0])
+            stack.extend(n.args)
+        return out
+    cases = [('cf_hypot', [x, y], lambda v: (v * v, x * x + y * y), 'cf_hypot(x, y)^2 == x^2 + y^2'),
+             ('cf_csqrt', [x + X.I * y], lambda v: (v * v, x + X.I * y), 'cf_csqrt(z)^2 == z')]
+    for fname, args, ident, label in cases:
+        f = need_func(mc, fname)
+        res = explore(f, args)
+        n_open = 0; n_skipped = 0; n_empty = 0
+        bad = {}
+        for trace, val in res:
+            if isinstance(val, Opaque) or val is None:
+                n_skipped += 1; continue
+            pos = region(trace)
+            if pos is None:
+                n_skipped += 1; continue
+            val = X.lift(val)
+            try:
+                d = X.Decider(seed=chk.seed + 51, k=2, positive=pos + sqrt_args(val))
+            except AnalysisError:
+                n_empty += 1; continue            # no sample point satisfies the arm's inequalities together: contradictory arm
+            n_open += 1
+            got, ref = ident(val)
+            try:
+                ok = d.equal(got, ref)
+            except AnalysisError:
+                n_empty += 1; n_open -= 1; continue
+            if not ok:
+                # key by the last statements that distinguish the arm (not by every comparison) so that equivalent arms collapse
+                conds = [f'{"" if o else "not "}({t})' for (_c, _w, t, o) in trace if 'THRESH' in t or 'z_real >= 0' in t or 'z_real > 0' in t]
+                bad.setdefault(' and '.join(conds) or 'main path', (PathExplorer.label(trace), d.describe(got, ref), trace[-1][1] if trace else mc.where(f)))
+        chk.note_analysed('finite-argument paths', f'{fname}: {len(res)} paths, {n_open} open arms examined, {n_skipped} special-value / measure-zero arms skipped, {n_empty} contradictory arms')
+        if n_open < 2:
+            raise AnalysisError(f'{fname}: only {n_open} open arms could be examined')
+        if not bad:
+            chk.ob('R20.7', f'{label} on every open arm of its finite-argument branches ({n_open} arms)', True, '', mc.where(f), key=f'R20.7|{fname}', method='path enumeration + GF(p^2) PIT inside each arm')
+        for key, (lab, desc, where) in bad.items():
+            chk.ob('R20.7', f'{label} on the arm [{key}]', False, f'identity fails ({desc}); e.g.{lab[:200]}', mc.where(f), key=f'R20.7|{fname}|{key}', method='path enumeration + GF(p^2) PIT inside each arm')
